@@ -262,14 +262,16 @@ Definition case_signature (c : obs_case) : N * N * N :=
   let '(a, t) := sig_steps (oc_param c) (oc_steps c) (mk_ks [] []) 0 0 in (a, t, N.of_nat (length (oc_steps c))).
 
 (* ---------- janitor sweeps ---------- *)
-Record obs_jan := { oj_sample : N; oj_aggr : bool; oj_stale : N; oj_entries : list (fkey * cstate); oj_sel : list bool }.
+(* oj_closing: per entry, whether its state byte is the one the kernel writes for a closing (FIN/RST seen) entry *)
+Record obs_jan := { oj_sample : N; oj_aggr : bool; oj_stale : N; oj_entries : list (fkey * cstate); oj_closing : list bool;
+                    oj_sel : list bool }.
 Fixpoint bools_eqb (a b : list bool) : bool :=
   match a, b with [], [] => true | x :: a', y :: b' => Bool.eqb x y && bools_eqb a' b' | _, _ => false end.
 (* codes: 1 impl<>model  2 impl<>spec (an ordinary sweep removes exactly the entries idle beyond their timeout at the
    sample, as integers)  3 model<>spec *)
 Definition check_jan (c : obs_jan) : list N :=
   let m := map (fun kv => jan_code_selected (oj_aggr c) (oj_stale c) (oj_sample c) (fst kv) (snd kv)) (oj_entries c) in
-  let sp := map (fun kv => spec_jan_removes (oj_sample c) (fst kv) (cs_state (snd kv) =? 1) (cs_last (snd kv))) (oj_entries c) in
+  let sp := map (fun x => spec_jan_removes (oj_sample c) (fst (fst x)) (snd x) (cs_last (snd (fst x)))) (combine (oj_entries c) (oj_closing c)) in
   let ordinary := negb (oj_aggr c) && (oj_stale c =? 0) in
   (if bools_eqb m (oj_sel c) then [] else [1]) ++
   (if ordinary && negb (bools_eqb (oj_sel c) sp) then [2] else []) ++
